@@ -299,6 +299,19 @@ for pi, p in enumerate(peers):
         ok, errs, text = pol.evaluate(banner, build(q))
         if ok or fld not in fields(errs):
             fail(dict(inp, perturbation=name), {'passed': ok, 'errors': fields(errs)}, {'passed': False, 'error names': fld}, 'drift')
+# the kind of peer is part of what -M records: a policy made in a client audit is a client policy (-P in a client audit accepts only those,
+# and a server audit only server policies), and it passes on the same peer either way
+for pi, p in enumerate(peers[:4]):
+    for client in (False, True):
+        cases += 1
+        inp = {'peer': pi, 'client audit': client}
+        try:
+            pol = Policy(policy_data=Policy.create('src', banner, build(p), client))
+            ok, errs, text = pol.evaluate(banner, build(p))
+        except Exception as e:
+            fail(inp, 'exception %%r' %% (e,), 'the generated policy loads and evaluates', 'kind-load'); continue
+        if pol.is_server_policy() != (not client) or not ok or errs:
+            fail(inp, {'is_server_policy': pol.is_server_policy(), 'passed': ok, 'errors': fields(errs)}, {'is_server_policy': not client, 'passed': True, 'errors': []}, 'policy-kind')
 # the peer as parsed from the wire (SSH2_Kex.parse of a KEXINIT payload): repeated names and empty name-lists are part of what the peer sent
 sys.path.insert(0, %(native)r)
 import fakenet as F
